@@ -13,8 +13,8 @@ def run(res, tier, seed, replay):
     if replay:
         recs, hangs = al.replay_async("c09", replay)
     else:
-        streams = [("small", al.NOHINT, 600 * k), ("dense", al.NOHINT & ~128, 300 * k), ("greedy", 17, 500 * k),
-                   ("conflict", al.NOHINT & ~128, 300 * k), ("fanout", 80, 100 * k)]
+        streams = [("small", al.NOHINT, 300 * k), ("dense", al.NOHINT & ~128, 150 * k), ("greedy", 17, 300 * k),
+                   ("conflict", al.NOHINT & ~128, 150 * k), ("fanout", 80, 60 * k)]
         recs, hangs = al.run_async("c09", streams, seed + 71)
     al.judge(recs, want_exact=True)
     n_exact, n_multi = 0, 0
@@ -40,6 +40,7 @@ def run(res, tier, seed, replay):
                     res.violation(key, f"conflict-free problem: provider requests are not exactly those for the greedy selection ({run['label']})",
                                   al.replay_obj(r, run))
     res.rule = ("universes without availability hints (classes small/dense/greedy/conflict/fanout), 1-3 solves on one solver "
-                "(same or varied problems), sync and yielding runtimes; non-trivial = run with >= 4 provider requests")
+                "(same or varied problems), plus 'cancel at poll k, then solve again' for up to 10 poll indices, sync and yielding "
+                "runtimes; non-trivial = run with >= 4 provider requests")
     res.extra.update({"runs_with_several_solves": n_multi, "exactness_applicable": n_exact, "hangs": len(hangs)})
     return res.finish(CHECKER, vlib.TRUSTED_BASE, ["the history is what the harness provider logs (harness/src/universe.rs)"])
